@@ -198,6 +198,22 @@ CLAIMED["C05"] = dict(
          "Outside: bytecode-level preemption, real sockets, SCTP, messages larger than the send buffer. Three genuine defects "
          "found and fixed (duplicate on partial write, loss on read-event mask reset, lost wake-up deadlock).")
 
+CLAIMED["C08"] = dict(
+    level="model_checking", technique=E3 + " (delay-bounded and preemption-bounded schedule exploration)", design="6/C08",
+    text="Diameter.close/get_message, DiameterAssociation.close/get_message/recv_message_from_queue, the state-machine loop with "
+         "every state's handlers, PeerStateMachine.get_next_state and TcpConnection._run/read/write/close/test_connection are "
+         "re-compiled from the current source as coroutines on stand-in primitives. Grid: termination cause (local close with "
+         "and without a DPA, DPR from the peer, peer disconnect, peer reset, refused connection) x point in life (Open idle / "
+         "queued inbound and outbound traffic / consumer blocked in get_message; Wait-Conn-Ack, Wait-I-CEA, server Closed). The "
+         "scheduler's delays are boolean solver variables; CrossHair enumerates every schedule within the delay bound. Oracle "
+         "once the system has settled: state Closed, sockets closed and unregistered, transport released, transport / worker / "
+         "state-machine coroutines returned, the blocked consumer returned, association lock free, Diameter.start() accepted "
+         "and a second association on the same object answers a DWR.",
+    note="Trusted: CrossHair, z3, stand-in primitives and scheduler. Bounds: <= 4 (quick) / 7 delays at synchronisation-operation "
+         "granularity, <= 2 / 3 delays with statement-level preemption in the teardown methods. Thread termination is the return "
+         "of the coroutinised loop, not an OS thread exit. Three defects fixed; two open known findings (server: peer gone "
+         "before the CER; close() requested before Open) are whole grid points whose witnesses are replayed on every run.")
+
 CLAIMED["C06"] = dict(
     level="model_checking", technique=E1 + " (one-step inductive check against a reference transition function)", design="6/C06",
     text="For each (role, state) one tick of the real PeerStateMachine loop body is executed on a stand-in transport from a "
